@@ -1,5 +1,7 @@
 use crate::frontend::ast::{AstNode, File, Named, Regex, RuleDecl, TokenDecl};
 use crate::{Cst, NodeRef, SemanticData};
+#[cfg(lelwel_verif)]
+use ::lelwel_verif_shim::std_fs as std;
 use std::io::{BufWriter, Write};
 
 pub struct GraphvizOutput;
